@@ -1,5 +1,6 @@
 import DispatchVerif.Core.LaneWMain
 import DispatchVerif.Core.LaneWOrd
+import DispatchVerif.Core.WidthCarry
 /-! # C04 — barriers on concurrent queues exclude and order like a writer lock
 
 `LaneW`: a lane of any width `W ≥ 1` — async push with the `try_acquire_async` fast path, reader and barrier sync fast
@@ -56,5 +57,22 @@ theorem barrier_after_earlier_readers {W : Nat} (hW : 1 ≤ W) {s : St} (h : Rea
 theorem nothing_starts_during_barrier {W : Nat} (hW : 1 ≤ W) {s : St} (h : Reachable W s) (t t' : Tid)
     (hb : isRunningB (s.pcs t) = true) (hi : isItemPc (s.pcs t') = true) : t = t' :=
   nothing_starts_while_barrier_runs hW h t t' hb hi
+
+/-! ## the reader count is a bounded field (F44, known finding)
+
+The models above count readers in a natural number (`LaneW`: width and running readers); the real count shares `dq_state` with the
+IN_BARRIER bit right above it. -/
+
+/-- as long as fewer than `2 * WIDTH_FULL` intervals are in the field the reader count stays below IN_BARRIER - the condition under
+    which the natural-number models describe the word -/
+theorem reader_count_below_barrier (w n : Nat) (hw : w ≤ Gen.DISPATCH_QUEUE_WIDTH_FULL)
+    (hn : Gen.DISPATCH_QUEUE_WIDTH_FULL - w + n < 2 * Gen.DISPATCH_QUEUE_WIDTH_FULL) :
+    WidthCarry.word w n < Gen.DISPATCH_QUEUE_IN_BARRIER := WidthCarry.readers_below_barrier w n hw hn
+
+/-- **F44 (known finding)**: on the widest queue the 8190th simultaneous `dispatch_sync` reader (they are not limited by the width)
+    turns the word into exactly the IN_BARRIER bit; every smaller count stays below it -/
+theorem F44_reader_count_carries :
+    WidthCarry.word 4094 8190 = Gen.DISPATCH_QUEUE_IN_BARRIER ∧ WidthCarry.word 4094 8189 < Gen.DISPATCH_QUEUE_IN_BARRIER ∧
+    (∀ n, n < 8190 → WidthCarry.word 4094 n < Gen.DISPATCH_QUEUE_IN_BARRIER) := WidthCarry.F44_reader_count_carries
 
 end C04
